@@ -4,13 +4,13 @@ go 1.18
 
 require (
 	github.com/mithrandie/csvq v0.0.0
+	github.com/mithrandie/go-text v1.6.0
 	github.com/mithrandie/ternary v1.1.1
 )
 
 require (
 	github.com/mitchellh/go-homedir v1.1.0 // indirect
 	github.com/mithrandie/go-file/v2 v2.1.0 // indirect
-	github.com/mithrandie/go-text v1.6.0 // indirect
 	golang.org/x/crypto v0.7.0 // indirect
 	golang.org/x/sys v0.6.0 // indirect
 	golang.org/x/term v0.6.0 // indirect
